@@ -5,11 +5,8 @@ Tokens are space separated; strings are dot-separated hexadecimal code points (`
 import HtmlVerif.Model.Tree
 import HtmlVerif.Model.Render
 import HtmlVerif.Model.Attrs
-<<<<<<< HEAD
 import HtmlVerif.Model.Hook
-=======
 import HtmlVerif.Model.Children
->>>>>>> c14
 
 namespace HtmlVerif.Wire
 open HtmlVerif
